@@ -32,6 +32,7 @@ func runC04(c *core.Ctx) {
 	ruleC04Lexical(c)
 	ruleObjStmLookup(c)
 	ruleTrimOneEOL(c)
+	rulePrevChainFollowed(c)
 }
 
 func ruleFirstEntryWins(c *core.Ctx) {
@@ -1331,5 +1332,102 @@ func ruleTrimOneEOL(c *core.Ctx) {
 		}
 		o.Fact("at most %d bytes removed on a path", maxTotal)
 		o.Require(maxTotal <= 2, "up to %d bytes are removed on one path; an end-of-line marker has at most two", maxTotal)
+	})
+}
+
+// rulePrevChainFollowed (C04-R9): every cross-reference section that was
+// read contributes its /Prev link: in readXRef no path leads from reading a
+// section back to the loop test except through the assignment of the next
+// start position (a "continue" taken because an /XRefStm was already decoded
+// would end the chain early and lose the older revisions).
+// ruleStringEOLFlag: the "a CR was just seen" flag of ReadString affects only
+// the byte that follows the CR: every path around the byte loop passes a
+// reset of the flag or an edge on which the flag is known to be false.
+func rulePrevChainFollowed(c *core.Ctx) {
+	c.Check("C04-R9", "pdf.(*Reader).readXRef/prev", "after a section has been read, the loop continues only through the assignment of the next start position taken from /Prev", func(o *core.Ob) {
+		fn := c.Prog.Func("pdf", "(*Reader).readXRef")
+		g := fn.Graph()
+		info := fn.Info()
+		heads := loopHeads(g)
+		if len(heads) == 0 {
+			core.Undecided("section loop not found")
+		}
+		head := heads[0]
+		var startObj types.Object
+		ast.Inspect(head.Cond.Expr, func(m ast.Node) bool {
+			if ix, ok := m.(*ast.IndexExpr); ok {
+				startObj = core.ObjOf(info, ix.Index)
+			}
+			return true
+		})
+		if startObj == nil {
+			core.Undecided("loop test does not look up the start position")
+		}
+		var next []*core.V
+		for _, dv := range defVertices(g, startObj) {
+			if as, ok := dv.AST.(*ast.AssignStmt); ok && as.Tok == token.ASSIGN && g.InLoop(dv) {
+				next = append(next, dv)
+				o.At(fn.Site(as, "next section"))
+			}
+		}
+		o.Require(len(next) >= 1, "the start position is never advanced inside the loop")
+		reads := callVertices(g, "pdf.readXRefTable", "pdf.(*Reader).readXRefStream")
+		o.Require(len(reads) >= 2, "section readers not found")
+		for _, rv := range reads {
+			o.Count(1)
+			if g.ReachFrom(rv.V, false, core.AvoidVs(next...))[head] {
+				o.FailAt(fn.Site(rv.Call, ""), "%s: after this section was read the loop can continue without following the section's /Prev link", c.Prog.Pos(rv.Call.Pos()))
+			}
+		}
+	})
+	c.Check("C04-R9", "pdf.(*scanner).ReadString/eol-flag", "the flag that makes an LF after a CR part of the same end-of-line is cleared after one byte", func(o *core.Ob) {
+		fn := c.Prog.Func("pdf", "(*scanner).ReadString")
+		g := fn.Graph()
+		info := fn.Info()
+		var flag types.Object
+		for _, v := range g.Vs {
+			if as, ok := v.AST.(*ast.AssignStmt); ok && len(as.Lhs) == 1 && len(as.Rhs) == 1 {
+				if cv := core.ConstOf(info, as.Rhs[0]); cv != nil && cv.String() == "true" && g.InLoop(v) {
+					if obj := core.ObjOf(info, as.Lhs[0]); obj != nil && isBoolObj(obj) {
+						flag = obj
+					}
+				}
+			}
+		}
+		if flag == nil {
+			core.Undecided("no boolean flag set inside the byte loop")
+		}
+		var resets []*core.V
+		for _, dv := range defVertices(g, flag) {
+			if as, ok := dv.AST.(*ast.AssignStmt); ok && len(as.Rhs) == 1 {
+				if cv := core.ConstOf(info, as.Rhs[0]); cv != nil && cv.String() == "false" && g.InLoop(dv) {
+					resets = append(resets, dv)
+					o.At(fn.Site(as, "flag cleared"))
+				}
+			}
+		}
+		o.Require(len(resets) >= 1, "the flag %s is never cleared inside the loop", flag.Name())
+		edges := g.GuardEdges(func(a core.Atom) bool {
+			id, ok := ast.Unparen(a.Expr).(*ast.Ident)
+			return ok && a.Neg && a.Tag == nil && info.ObjectOf(id) == flag
+		})
+		// the vertices that test the flag
+		var tests []*core.V
+		for _, bv := range g.BranchVertices() {
+			if bv.Cond.Expr != nil && condMentions(g, bv, flag) {
+				tests = append(tests, bv)
+			}
+		}
+		o.Require(len(tests) >= 1, "the flag is never tested")
+		o.Count(len(tests))
+		bad := false
+		for _, tv := range tests {
+			if g.ReachFrom(tv, false, core.AvoidEdges(edges...).With(resets...))[tv] {
+				bad = true
+			}
+		}
+		if bad {
+			o.Fail("%s: an iteration of the byte loop can complete with the flag %s neither cleared nor known to be clear: an LF later in the string is swallowed", c.Prog.Pos(fn.Decl.Pos()), flag.Name())
+		}
 	})
 }
